@@ -346,6 +346,18 @@ Example C06_nonvacuous_minres_amount :
   radd (rsum [1; 0] l) (rsum [2; 1] l) = mkR 4 (3 * 100 + 1 * 250) (3 * 64).
 Proof. exact minres_amount_example. Qed.
 
+(* ---- the resync worker (round 8): syncTask for a pod queued after a failed delete, with or without the pod
+   disappearing (and its delete event being handled) between the worker's GET and its cache.UpdatePod:
+   it never ADDS a pod to the job cache, touches no other pod and no status; a pod that vanished from the
+   API server did so only through the race ---- *)
+Theorem C06_resync_adds_no_pod : forall w t i race w' e wr,
+  step w (OResyncPod t i race) = (w', e, wr) ->
+  incl (pod_ids (v_pods w')) (pod_ids (v_pods w)) /\ incl (pod_ids (w_pods w')) (pod_ids (w_pods w)) /\
+  w_st w' = w_st w /\ v_st w' = v_st w /\ e = false /\ wr = false /\
+  (find_pod t i (w_pods w') = None -> find_pod t i (w_pods w) = None \/ race = true).
+Proof. exact resync_adds_no_pod. Qed.
+Print Assumptions C06_resync_adds_no_pod.
+
 Example C06_nonvacuous :
   let sp := mkSpec [mkTask 1 3 (Some 1) [] None; mkTask 2 2 None [] None] 4 None 3 [] in
   let xs := [mkExtra 100 64 1; mkExtra 250 0 2] in
@@ -406,3 +418,12 @@ Example C06_nonvacuous_minres_stable :
   law_minres_stable sp xs (mkR 1 100 64) = true /\
   law_minres sp xs (mkR 1 250 0) = true /\ law_minres_stable sp xs (mkR 1 250 0) = false.
 Proof. exact minres_stable_example. Qed.
+
+Example C06_nonvacuous_resync :
+  let st := mkStatus PhRunning 0 0 2 (mkC 0 2 0 0 0) 0 [] false false in
+  let sp := mkSpec [mkTask 1 2 None [] None] 2 None 3 [] in
+  let w := init_world sp st [mkPod 1 0 PRunning false false; mkPod 1 1 PRunning false true] (Some PgRunning) in
+  w_pods (run w [OReq (mkReq EOutOfSync None None None 0 0 1) [FDelete 1 1]; OResyncPod 1 1 true;
+                 OSyncPods; OSyncPg; OSyncJob; OReq (mkReq EOutOfSync None None None 0 0 1) []]) =
+  [mkPod 1 0 PRunning false false; mkPod 1 1 PPending false false].
+Proof. exact resync_example. Qed.
